@@ -32,9 +32,9 @@ from models.excuse import Excuse
 NAME = 'M-GEN'
 PROPS = ('C11', 'C12')
 TIERS = {
-    'C11': {'quick': {'runs': 4000, 'wall_cap': 240},
+    'C11': {'quick': {'runs': 8000, 'wall_cap': 240},
             'thorough': {'runs': 150000, 'wall_cap': 1500}},
-    'C12': {'quick': {'runs': 4000, 'wall_cap': 240},
+    'C12': {'quick': {'runs': 8000, 'wall_cap': 240},
             'thorough': {'runs': 150000, 'wall_cap': 1500}},
 }
 LEVELS = {p: 'exploration' for p in PROPS}
